@@ -4,7 +4,8 @@
 //! numbers; TLC's integers are 32 bit. The specification therefore works with small abstract
 //! token types and the harness maps them, at the API boundary of every scanning-level leg, to
 //! concrete ones of which most do not fit into 16 or 32 bits: an abstract type below 8 is itself,
-//! 9 is usize::MAX, any other is moved up by 2^40. What the code reports is mapped back; a reported type that is not
+//! 9 is usize::MAX, 13 and 14 are congruent to the images of 5 and 10 modulo 2^32, any other is
+//! moved up by 2^40. What the code reports is mapped back; a reported type that is not
 //! the image of an abstract one (e.g. a truncated one) maps to a value no abstract type has, so it
 //! cannot be mistaken for the expected type.
 
@@ -26,6 +27,12 @@ pub fn conc(t: usize) -> usize {
         t
     } else if t == 9 {
         usize::MAX
+    } else if t == 13 {
+        // congruent to 5 modulo 2^32
+        (1 << 32) + 5
+    } else if t == 14 {
+        // congruent to conc(10) modulo 2^32
+        (1 << 32) + SHIFT + 10
     } else {
         t + SHIFT
     }
@@ -45,6 +52,10 @@ pub fn abs(x: usize) -> u64 {
         x as u64
     } else if x == usize::MAX {
         9
+    } else if x == (1 << 32) + 5 {
+        13
+    } else if x == (1 << 32) + SHIFT + 10 {
+        14
     } else if x >= SHIFT + 8 && x - SHIFT < (1 << 31) {
         (x - SHIFT) as u64
     } else {
